@@ -585,6 +585,20 @@ let eval (fn : string) (args : string list) : string =
   | "Convert", [cfg; src] ->
     (match convertModelC (parse_rcfg cfg) (bytes_of_hex src) with
      | Ok o -> hex_of_bytes o | Panic -> "PANIC" | OutOfFuel -> "FUEL")
+  | "ParseAttrs", [src; adv] ->
+    let rec pv = function
+      | PBytes v -> "b" ^ hex_of_bytes v | PNumber -> "n" | PBool b -> if b then "t" else "f" | PNull -> "z"
+      | PArray l -> "[" ^ String.concat "," (List.map pv l) ^ "]"
+      | PAttrs l -> "{" ^ pl l ^ "}"
+    and pl l = String.concat ";" (List.map (fun (n, v) -> hex_of_bytes n ^ "=" ^ pv v) l) in
+    (match r_advance (new_reader (bytes_of_hex src)) (z_of_int (int_of_string adv)) with
+     | Ok r ->
+       (match parseAttributesR r with
+        | Ok (r', res) ->
+          let (l, p) = r_position r' in
+          (match res with None -> "no" | Some a -> "ok:" ^ pl a) ^ Printf.sprintf "@%d,%s" (int_of_z l) (seg_str p)
+        | Panic -> "PANIC" | OutOfFuel -> "FUEL")
+     | Panic -> "PANIC" | OutOfFuel -> "FUEL")
   | "ParseLinesOk", [src] ->
     (match parseLinesOk (bytes_of_hex src) with Ok b -> s_of_bool b | Panic -> "PANIC" | OutOfFuel -> "FUEL")
   | "ParseTree", [src] ->
